@@ -260,7 +260,7 @@ func (t *taint) solve(funcs []*ssa.Function) {
 }
 
 func c08(c *Ctx) {
-	c.R.Explanation = "C08: only the fault clause is decided ('a failed or non-finite read leaves the smoothed value unchanged'). R-propagate = in every Sensor.GetValue implementation (and util.ReadIntFromFile) every return reachable from the err != nil edge of an error-returning call carries a non-nil error (no failure is converted into a value). R-fresh = no Sensor.GetValue implementation reads through an open handle (os.File, bufio.Reader, ...) remembered in a field of the sensor object: the configured source is opened anew on every poll, so a deleted or replaced file is a failed read. R-skip = in the call tree of the sensor-monitor actor no path from the error edge of Sensor.GetValue reaches Sensor.SetMovingAvg or util.UpdateSimpleMovingAvg. R-finite = interprocedural taint: a value that originates from strconv.ParseFloat (the only source of NaN/±Inf; Atoi-based sources cannot produce them), followed through conversions, arithmetic, phi, locals, math.* and function returns (invokes resolved to all implementations), must cross edges establishing !math.IsNaN and !math.IsInf(.,0) before it reaches UpdateSimpleMovingAvg / SetMovingAvg in the monitor. Not decided: the hull and the geometric convergence rate (floating-point arithmetic over arbitrary sequences)."
+	c.R.Explanation = "C08: only the fault clause is decided ('a failed or non-finite read leaves the smoothed value unchanged'). R-propagate = in every Sensor.GetValue implementation (and util.ReadIntFromFile) every return reachable from the err != nil edge of an error-returning call carries a non-nil error (no failure is converted into a value). R-fresh = no Sensor.GetValue implementation reads through an open handle (os.File, bufio.Reader, ...) remembered in a field of the sensor object: the configured source is opened anew on every poll, so a deleted or replaced file is a failed read. R-skip = in the call tree of the sensor-monitor actor no path from the error edge of Sensor.GetValue reaches Sensor.SetMovingAvg or util.UpdateSimpleMovingAvg. R-finite = interprocedural taint: a value that originates from strconv.ParseFloat (the only source of NaN/±Inf; Atoi-based sources cannot produce them), followed through conversions, arithmetic, phi, locals, math.* and function returns (invokes resolved to all implementations), must cross edges establishing !math.IsNaN and !math.IsInf(.,0) before it reaches UpdateSimpleMovingAvg / SetMovingAvg in the monitor. R-propagate also covers util.SafeCmdExecution (every failure edge of the command run leads to a non-nil error: a command that exits non-zero is a failed read, whatever it printed). Not decided: the hull and the geometric convergence rate (floating-point arithmetic over arbitrary sequences)."
 	c.R.Assumptions = append(c.R.Assumptions,
 		"strconv.Atoi/ParseInt cannot yield non-finite values; strconv.ParseFloat accepts nan/inf",
 		"the initial seeding of the average in InitializeObjects is not a poll (the statement's hull includes the initial value)")
@@ -276,6 +276,13 @@ func c08(c *Ctx) {
 	}
 	if rf := c.Func(PkgUtil, "ReadIntFromFile"); rf != nil {
 		c.checkErrorPropagation("R-propagate", rf, func(call *ssa.Call) bool { return true })
+	}
+	// the command sensor's read: a command that could not be run or exited non-zero is a failed read
+	// (same obligation as C19 R-err: every failure edge of SafeCmdExecution leads to a non-nil error)
+	if safe := c.FuncOpt(PkgUtil, "SafeCmdExecution"); safe != nil {
+		c.checkErrorPropagation("R-propagate", safe, func(call *ssa.Call) bool {
+			return strings.HasPrefix(ir.CallName(call), "(*os/exec.Cmd).")
+		})
 	}
 	c.R.Require("R-propagate", 4)
 
@@ -328,112 +335,10 @@ func c08(c *Ctx) {
 	c.R.Require("R-fresh", 3)
 
 	// ---- R-skip --------------------------------------------------------------------
-	var monitorFns []*ssa.Function
-	for _, run := range c.ConvertedImplMethods(PkgInternal, "SensorMonitor", "Run") {
-		for f := range c.Closure([]*ssa.Function{run}, true, func(f *ssa.Function) bool {
-			p := load_FuncPkgPath(f)
-			return p == PkgUI
-		}) {
-			monitorFns = append(monitorFns, f)
-			if dbg {
-				println("monitor fn:", strings.Join(c.WhyReach(run, f, true), " -> "))
-			}
-		}
-	}
-	if len(monitorFns) == 0 {
-		c.R.Undecided("R-skip", "no-monitor", "SensorMonitor.Run", "-", "no sensor monitor implementation found (anchor unresolved)")
-	}
+	monitorFns := c.ruleAvgSkip("R-skip")
 	isAvgSink := func(cc ssa.CallInstruction) bool {
 		return ir.IsInvoke(cc, PkgSensors, "Sensor", "SetMovingAvg") || ir.IsFunc(cc, PkgUtil, "UpdateSimpleMovingAvg")
 	}
-	// pure forwarding wrappers of the read (`return s.GetValue()`): their call sites are the reads to judge
-	readWrappers := map[*ssa.Function]bool{}
-	isRead := func(cc ssa.CallInstruction) bool {
-		if ir.IsInvoke(cc, PkgSensors, "Sensor", "GetValue") {
-			return true
-		}
-		st := ir.Callee(cc).Static
-		return st != nil && readWrappers[st]
-	}
-	for changed := true; changed; {
-		changed = false
-		for _, fn := range monitorFns {
-			if readWrappers[fn] || len(fn.Blocks) == 0 {
-				continue
-			}
-			rets := ir.Returns(fn)
-			forwards := len(rets) > 0
-			for _, rt := range rets {
-				tc := tailCallOf(rt, errResultIndex(fn))
-				if tc == nil || !isRead(tc) {
-					forwards = false
-				}
-			}
-			if forwards {
-				readWrappers[fn] = true
-				changed = true
-			}
-		}
-	}
-	nskip := 0
-	for _, fn := range monitorFns {
-		if readWrappers[fn] {
-			continue
-		}
-		Calls(fn, func(cc ssa.CallInstruction) {
-			call, ok := cc.(*ssa.Call)
-			if !ok || !isRead(cc) {
-				return
-			}
-			nskip++
-			key := c.FK(fn)
-			ev := errValueOfCall(call)
-			es := nilEdges(fn, ev, true)
-			if len(es) == 0 {
-				c.R.Bad("R-skip", key, key, c.P.Pos(call.Pos()), "the error of Sensor.GetValue is not tested before the average is updated")
-				return
-			}
-			reached := ""
-			ir.Search{}.Reach(edgeStarts(es), func(ins ssa.Instruction, _ *ssa.BasicBlock) {
-				if c2, ok := ins.(ssa.CallInstruction); ok {
-					if isAvgSink(c2) {
-						reached = c.P.Pos(ins.Pos())
-					}
-					for _, cal := range c.Callees(c2) {
-						if c.reaches(cal, isAvgSink) {
-							reached = c.P.Pos(ins.Pos())
-						}
-					}
-				}
-			})
-			// and the sink must not be reachable without passing the test at all
-			untested := false
-			okEdges := nilEdges(fn, ev, false)
-			ir.Search{StopEdge: func(b *ssa.BasicBlock, si int) bool {
-				for _, e := range append(okEdges, es...) {
-					if e.b == b && e.si == si {
-						return true
-					}
-				}
-				return false
-			}}.Reach([]ir.Point{ir.After(call)}, func(ins ssa.Instruction, _ *ssa.BasicBlock) {
-				if c2, ok := ins.(ssa.CallInstruction); ok && isAvgSink(c2) {
-					untested = true
-				}
-			})
-			if reached != "" {
-				c.R.Bad("R-skip", key, key, reached, "the moving average is updated on a path that crossed the error edge of Sensor.GetValue")
-			} else if untested {
-				c.R.Bad("R-skip", key, key, c.P.Pos(call.Pos()), "the moving average is updated on a path that never tests the error of Sensor.GetValue")
-			} else {
-				c.R.Ok("R-skip", key, key, c.P.Pos(call.Pos()), "no path from the error edge of Sensor.GetValue reaches SetMovingAvg / UpdateSimpleMovingAvg")
-			}
-		})
-	}
-	if nskip == 0 && len(monitorFns) > 0 {
-		c.R.Undecided("R-skip", "no-getvalue", "sensor monitor", "-", "the sensor monitor's call tree contains no Sensor.GetValue call (anchor unresolved)")
-	}
-	c.R.Require("R-skip", 1)
 
 	// ---- R-finite --------------------------------------------------------------------
 	t := &taint{c: c, impls: func(call ssa.CallInstruction) []*ssa.Function { return c.Callees(call) }}
@@ -545,4 +450,114 @@ func (c *Ctx) ruleHull(monitorFns []*ssa.Function) {
 		}
 	}
 	c.R.Require("R-hull", 2)
+}
+
+// ruleAvgSkip: in the call tree of the sensor-monitor actor no path from the error edge of Sensor.GetValue reaches
+// Sensor.SetMovingAvg or util.UpdateSimpleMovingAvg, and the average is not updated before that error was tested
+// (C08 R-skip; shared with C09: "keeps regulating with the last good data").
+func (c *Ctx) ruleAvgSkip(rule string) []*ssa.Function {
+	var monitorFns []*ssa.Function
+	for _, run := range c.ConvertedImplMethods(PkgInternal, "SensorMonitor", "Run") {
+		for f := range c.Closure([]*ssa.Function{run}, true, func(f *ssa.Function) bool {
+			p := load_FuncPkgPath(f)
+			return p == PkgUI
+		}) {
+			monitorFns = append(monitorFns, f)
+		}
+	}
+	if len(monitorFns) == 0 {
+		c.R.Undecided(rule, "no-monitor", "SensorMonitor.Run", "-", "no sensor monitor implementation found (anchor unresolved)")
+	}
+	isAvgSink := func(cc ssa.CallInstruction) bool {
+		return ir.IsInvoke(cc, PkgSensors, "Sensor", "SetMovingAvg") || ir.IsFunc(cc, PkgUtil, "UpdateSimpleMovingAvg")
+	}
+	// pure forwarding wrappers of the read (`return s.GetValue()`): their call sites are the reads to judge
+	readWrappers := map[*ssa.Function]bool{}
+	isRead := func(cc ssa.CallInstruction) bool {
+		if ir.IsInvoke(cc, PkgSensors, "Sensor", "GetValue") {
+			return true
+		}
+		st := ir.Callee(cc).Static
+		return st != nil && readWrappers[st]
+	}
+	for changed := true; changed; {
+		changed = false
+		for _, fn := range monitorFns {
+			if readWrappers[fn] || len(fn.Blocks) == 0 {
+				continue
+			}
+			rets := ir.Returns(fn)
+			forwards := len(rets) > 0
+			for _, rt := range rets {
+				tc := tailCallOf(rt, errResultIndex(fn))
+				if tc == nil || !isRead(tc) {
+					forwards = false
+				}
+			}
+			if forwards {
+				readWrappers[fn] = true
+				changed = true
+			}
+		}
+	}
+	nskip := 0
+	for _, fn := range monitorFns {
+		if readWrappers[fn] {
+			continue
+		}
+		Calls(fn, func(cc ssa.CallInstruction) {
+			call, ok := cc.(*ssa.Call)
+			if !ok || !isRead(cc) {
+				return
+			}
+			nskip++
+			key := c.FK(fn)
+			ev := errValueOfCall(call)
+			es := nilEdges(fn, ev, true)
+			if len(es) == 0 {
+				c.R.Bad(rule, key, key, c.P.Pos(call.Pos()), "the error of Sensor.GetValue is not tested before the average is updated")
+				return
+			}
+			reached := ""
+			ir.Search{}.Reach(edgeStarts(es), func(ins ssa.Instruction, _ *ssa.BasicBlock) {
+				if c2, ok := ins.(ssa.CallInstruction); ok {
+					if isAvgSink(c2) {
+						reached = c.P.Pos(ins.Pos())
+					}
+					for _, cal := range c.Callees(c2) {
+						if c.reaches(cal, isAvgSink) {
+							reached = c.P.Pos(ins.Pos())
+						}
+					}
+				}
+			})
+			// and the sink must not be reachable without passing the test at all
+			untested := false
+			okEdges := nilEdges(fn, ev, false)
+			ir.Search{StopEdge: func(b *ssa.BasicBlock, si int) bool {
+				for _, e := range append(okEdges, es...) {
+					if e.b == b && e.si == si {
+						return true
+					}
+				}
+				return false
+			}}.Reach([]ir.Point{ir.After(call)}, func(ins ssa.Instruction, _ *ssa.BasicBlock) {
+				if c2, ok := ins.(ssa.CallInstruction); ok && isAvgSink(c2) {
+					untested = true
+				}
+			})
+			if reached != "" {
+				c.R.Bad(rule, key, key, reached, "the moving average is updated on a path that crossed the error edge of Sensor.GetValue")
+			} else if untested {
+				c.R.Bad(rule, key, key, c.P.Pos(call.Pos()), "the moving average is updated on a path that never tests the error of Sensor.GetValue")
+			} else {
+				c.R.Ok(rule, key, key, c.P.Pos(call.Pos()), "no path from the error edge of Sensor.GetValue reaches SetMovingAvg / UpdateSimpleMovingAvg")
+			}
+		})
+	}
+	if nskip == 0 && len(monitorFns) > 0 {
+		c.R.Undecided(rule, "no-getvalue", "sensor monitor", "-", "the sensor monitor's call tree contains no Sensor.GetValue call (anchor unresolved)")
+	}
+	c.R.Require(rule, 1)
+	return monitorFns
 }
